@@ -68,6 +68,11 @@ pub trait Vut: Sized {
     fn v_holes(&self) -> Vec<usize>;
     fn v_region_names(&self) -> Vec<String>;
     fn v_data_len(&self) -> usize;
+    /// C08: the whole read battery on the current state; returns the hash of the primary path's answers
+    fn v_reads(&self, seed: u64, reference: &[Option<u64>], clone_ok: bool, fails: &mut Vec<String>) -> u64;
+    /// stored-only scans through the file-IO and the mmap back-end
+    fn v_stored_scans(&self, a: usize, b: usize) -> (Vec<u64>, Vec<u64>);
+    fn v_dirty(&self) -> bool;
     fn v_update(&mut self, _i: usize, _v: Self::T) -> vecdb::Result<()> { Err(Error::ExpectVecToHaveIndex) }
     fn v_delete(&mut self, _i: usize) {}
     fn v_take(&mut self, _i: usize) -> vecdb::Result<Option<Self::T>> { Ok(None) }
@@ -96,6 +101,17 @@ macro_rules! common_impl {
         fn v_rollback_before(&mut self, s: u64) -> vecdb::Result<u64> { self.rollback_before(Stamp::new(s)).map(u64::from) }
         fn v_reset(&mut self) -> vecdb::Result<()> { self.reset() }
         fn v_reset_unsaved(&mut self) { self.reset_unsaved() }
+        fn v_reads(&self, seed: u64, reference: &[Option<u64>], clone_ok: bool, fails: &mut Vec<String>) -> u64 {
+            let ro = vecdb::StoredVec::read_only_clone(self);
+            crate::read_paths::battery::<Self::T, _, _>(self, &ro, seed, reference, self.stored_len(), 16 * 1024 / <Self::T as Val>::SZ, clone_ok, fails,
+                &|a, b| self.v_stored_scans(a, b))
+        }
+        fn v_stored_scans(&self, a: usize, b: usize) -> (Vec<u64>, Vec<u64>) {
+            let io = self.fold_stored_io(a, b, vec![], |mut acc: Vec<u64>, x: Self::T| { acc.push(x.to_u64()); acc });
+            let mm = self.fold_stored_mmap(a, b, vec![], |mut acc: Vec<u64>, x: Self::T| { acc.push(x.to_u64()); acc });
+            (io, mm)
+        }
+        fn v_dirty(&self) -> bool { self.is_dirty() }
         fn v_region_names(&self) -> Vec<String> { self.region_names() }
         fn v_data_len(&self) -> usize { self.region().meta().len() }
     };
@@ -487,6 +503,14 @@ impl<V: Vut> Engine<V> {
                         Ok("ok".into())
                     }
                     "reset_unsaved" => { vec.v_reset_unsaved(); r.off = true; Ok("ok".into()) }
+                    "reads" => {
+                        if r.off { Ok("ok:skipped".into()) } else {
+                            // read-only clones and stored-only scans see what is stored: comparable on clean states
+                            let clone_ok = !vec.v_dirty() && vec.v_real() == vec.v_stored() && vec.v_stored() == r.items.len();
+                            let h = vec.v_reads(num(1), &r.items, clone_ok, &mut fails);
+                            Ok(format!("ok:{h}"))
+                        }
+                    }
                     _ => Ok("bad-op".into()),
                 }
             }))
@@ -610,6 +634,7 @@ pub struct Gen {
     pub next_stamp: u64,
     pub since_commit: bool,
     pub pending_fault: bool,
+    pub reads: bool,
 }
 
 impl Gen {
@@ -652,6 +677,9 @@ impl Gen {
         let stored = eng.vec.as_ref().map(|v| v.v_stored()).unwrap_or(0);
         let pp = 16 * 1024 / self.sz;
         let r = &mut self.rng;
+        if self.reads && len > 0 && !self.pending_fault && r.chance(1, 5) {
+            return format!("reads {}", r.below(1 << 40));
+        }
         match self.mode.as_str() {
             "plain" | "refusals" => {
                 if self.mode == "refusals" && r.chance(1, 4) {
@@ -780,7 +808,7 @@ fn run_format<V: Vut>(args: &Args, fmt: &str, cases: &[u64]) -> (Vec<String>, Ve
     let mut obs = vec![];
     let mut eng = Engine::<V>::new(&tmp);
     for &case_no in cases {
-        let mut g = Gen { rng: Rng::new(seed.wrapping_mul(1_000_003).wrapping_add(case_no).wrapping_mul(31)), mode: mode.clone(), raw: V::RAW, sz: V::T::SZ, next_stamp: 1, since_commit: true, pending_fault: false };
+        let mut g = Gen { rng: Rng::new(seed.wrapping_mul(1_000_003).wrapping_add(case_no).wrapping_mul(31)), mode: mode.clone(), raw: V::RAW, sz: V::T::SZ, next_stamp: 1, since_commit: true, pending_fault: false, reads: args.flag("--reads") };
         let keep = if mode == "plain" || mode == "refusals" { 0 } else { *g.rng.pick(&[1u64, 2, 3, 3, 10]) };
         let line = format!("case {case_no} kind={} sz={} keep={keep} fmt={fmt} forced={}", if V::RAW { "raw" } else { "comp" }, V::T::SZ, g.rng.below(2));
         let (l, o) = eng.exec(&line);
